@@ -259,7 +259,7 @@ def integer_decimal_string_roundtrip(n: int) -> bool:
 # --- added after seeded-change review ------------------------------------------------------------------------------------------
 
 import datetime as _dt  # noqa: E402
-WS = ('', ' ', chr(10), chr(9), ' ' + chr(13) + chr(10), '  ')
+WSTR = ('', ' ', chr(10), chr(9), ' ' + chr(13) + chr(10), '  ')     # (not WS: that name is the white-space range list of the E3 obligations)
 HH = tuple('%02d' % h for h in range(15))
 MM = tuple('%02d' % m for m in range(60))
 T2 = parse_all({
@@ -284,7 +284,7 @@ def untyped_and_string_sources_agree(w0: int, w1: int, w2: int) -> bool:
     pre: 0 <= w0 <= 5 and 0 <= w1 <= 5 and 0 <= w2 <= 5
     post: _
     """
-    a, b, c = WS[w0], WS[w1], WS[w2]
+    a, b, c = WSTR[w0], WSTR[w1], WSTR[w2]
     b64 = a + 'aGVsbG8g' + b + 'd29ybGQh' + c
     for ku, ks, s in (('b64_u', 'b64_s', b64), ('hex_u', 'hex_s', a + '0aF1' + c), ('int_u', 'int_s', a + '-12' + c),
                       ('bool_u', 'bool_s', a + 'true' + c), ('date_u', 'date_s', a + '2000-02-29' + c)):
@@ -382,7 +382,7 @@ def boolean_whitespace_value(w0: int, w2: int, wi: int) -> bool:
     post: _
     """
     word = BWORDS[[k for k in range(4) if k == wi][0]]
-    s = WS[w0] + word + WS[w2]
+    s = WSTR[w0] + word + WSTR[w2]
     want = word in ('true', '1')
     return _try(T2['bool_ctor'], s=s) == [want] and _try(T2['bool_cast'], s=s) == [want] and _try(T2['bool_untyped'], s=s) == [want] \
         and _try(T2['bool_castable'], s=s) == [True]
